@@ -776,3 +776,4 @@ V('c07-helper-other-value', 'C07', None, None, None, rule='C07-K', patch='benign
 
 # ---------------------------------------------------------------- rules added after the third round of seeded changes
 from . import variants_r3  # noqa: E402,F401
+from . import variants_r5  # noqa: E402,F401
